@@ -7,6 +7,10 @@ TECH = "Lean 4 proof (induction over histories / structural induction / omega) +
 CLAIMS = {
  "C01": ("Lean 4 theorem C01_no_double_lease: in every state reachable by any finite history of grants (any clients, requested addresses, pools changing per message, lease bounds), clock advances and restarts, at every instant no address has two different clients with unexpired leases told to them; by the invariant 'an unexpired belief is backed by the stored row', preserved by every allowed outcome of select_address (SQL ties, hash order and the second clock read are nondeterministic in the model). Tied to pool.rs by extraction of the SQL comparison operators/ORDER BY clauses and by differential histories against the real Pool (allowed-outcome membership + table equality after every op) with the no-double-lease predicate evaluated on the implementation's replies.",
          "Trusted: Lean kernel; SQLite as a finite map with INSERT OR REPLACE / ORDER BY semantics; packets handled one at a time (tokio mutex outside the model); clock monotone; harness owns the clock by overriding clock_gettime."),
+ "C06": ("Lean 4 theorems over the cache state machine (store / expire / clock advance, any history from an empty cache): C06_served_within_ttl (a lookup served from cache comes from an entry stored under exactly the queried key, at an age not exceeding the smallest TTL over all three sections, with every TTL = original minus whole seconds elapsed, computed without underflow), C06_never_panics, C06_miss_after_ttl, C06_zero_ttl_not_cached, C06_store_touches_one_key; by the invariant 'lifetime = min TTL of the stored reply > 0 and birth <= now'. Tied to the code by driving the cache's own insert_cache_entry / get_entry / expire / calculate_expiry (hook) under tokio's paused clock on histories with TTLs 0..2^32-1 and lookups landing +-1 ns around expiry, compared with the model and judged by an oracle computed from the inputs alone.",
+         "Trusted: Lean kernel; HashMap as a finite map; tokio's paused clock; only class IN reaches the cache (checked in handle_query before the key is built - covered by the end-to-end rig, not by this suite)."),
+ "C16": ("Lean 4 theorems: C16_bucket_bounded (for every arrival sequence in [t1,t2] the granted volume of one bucket is at most MAX_TOKENS + TOKENS_PER_SECOND*(t2-t1); potential argument, induction over the sequence), C16_limiter_charges_one (hence twice that per source), C16_quiet_client_served + C16_floor_fits_capacity (after an idle refill period any charge up to the capacity, in particular the minimum charge, is granted), C16_cost_covers_reply, C16_only_refused_and_good_cookie_exempt (shape of should_ratelimit), and for cookies with HMAC uninterpreted: C16_cookie_exempt_iff, C16_cookie_not_transferable (under an explicit collision-resistance hypothesis), C16_cookie_expires_after_two_rotations. Constants regenerated from bucket.rs / mod.rs. Correspondence: GenericTokenBucket under a virtual Clock; should_ratelimit sequences with the real limiter, real HMAC cookies issued by the server, key rotations and forged / foreign / truncated cookies.",
+         "Trusted: hmac/sha2; collision resistance is a hypothesis of the non-transferability theorem; one query at a time (check-then-deplete is not atomic); other sources hashing onto the same buckets are outside the single-source quantifier."),
  "C08": ("Lean 4 theorems: C08_subnet_v4/_v6 (for every prefix length and every written address, host bits set or not, containment = equality of the top len bits; via a bit-level lemma about and-ing with the netmask), C08_mapped_client (IPv4 clients seen as ::ffff:a.b.c.d), C08_first_match_decides / C08_no_match_refused / C08_granted_iff (granted iff the first matching rule has the permission, for every rule list), C08_rule_conditions, C08_http_arms_guarded (every arm of the HTTP router, regenerated from serve_request, is behind its documented permission) and C08_dns_acl_before_everything (statement order of the DNS entry point). Correspondence: acl::require_permission on generated rule lists x clients at every prefix boundary, judged by the model and by an independent first-match specification.",
          "Trusted: Lean kernel; extract.py for the HTTP match arms and the DNS handler's statement order (these need live sockets to execute, so they are tied by translation, not executed); nix/NetAddr address classification. The v4 client against ::ffff:a.b.c.d/(96+n) prefix rule is covered by the correspondence only (no theorem yet)."),
  "C20": ("Lean 4 theorems C20_gauges (for every store incl. the empty one the SQL of get_pool_metrics - comparison operators, COALESCE and column order regenerated from the source - returns (|expiry>now|, |expiry<=now|) in the order (active, expired)) and C20_gauges_partition. The listing is modelled byte for byte (leases_json: decimal/hex/dotted-quad printers, JSON string escaper) and tied to http::leases_json by exact output equality on tables whose client ids and host names are drawn from all byte strings; a strict RFC 8259 parser (independent reading) is the oracle for validity and for 'one entry per lease with that lease's fields'.",
